@@ -173,6 +173,9 @@ func c13Modes() []c13Mode {
 		// <work>/d, PWD holds the logical path): git resolves ../.git physically
 		{"GIT_DIR relative with .. through a symlinked cwd", func(w, wt2, bare, el string, env, a []string) cli.Result {
 			link := filepath.Join(filepath.Dir(w), "link")
+			if _, err := os.Lstat(link); err != nil {
+				os.Symlink(filepath.Join(w, "d"), link) // (C17 reuses the modes with its own directories)
+			}
 			return sizer(link, append(env, "GIT_DIR=../.git", "PWD="+link), a)
 		}},
 		{"git -C <dir> sizer", func(w, wt2, bare, el string, env, a []string) cli.Result {
